@@ -64,52 +64,17 @@ Example raise_carries_exact_inhabited :
                                   ri_payload := None |}]) = Raise FPie 1 12 None.
 Proof. vm_compute. reflexivity. Qed.
 
-(* every legal failure is raised as an operation failure carrying status, reason, message.
-   Full-strength statement: ClientProofs.failure_carries_statement - REFUTED on the code as it is
-   (known findings C19-pie-failure-without-message-*, C19-check-failure-crashes). *)
-Theorem failure_carries_partial :
+(* every legal failure - message present or absent, operation echoed or absent - is raised as an
+   operation failure carrying exactly status, reason and message (full strength since the fix: commits
+   for the missing Result Message and for Check) *)
+Theorem failure_carries :
   forall o it rs, is_pie o = true -> legal_failure o it rs ->
-    o <> OCheck ->
-    (message_read_unguarded o = true -> ri_msg it <> None) ->
     interpret o (Decoded [it]) = Raise (failure_class o) (ri_status it) rs (ri_msg it).
-Proof. exact ClientProofs.failure_carries_partial. Qed.
-Print Assumptions failure_carries_partial.
+Proof. exact ClientProofs.failure_carries. Qed.
+Print Assumptions failure_carries.
 
-Example failure_carries_partial_inhabited :
-  legal_failure OGet {| ri_op := Some 10; ri_status := 1; ri_reason := Some 1; ri_msg := Some [110; 111];
-                        ri_payload := None |} 1 /\ OGet <> OCheck.
-Proof. split; [|discriminate]. repeat split; auto. discriminate. Qed.
-
-Theorem failure_carries_refuted :
-  exists o it rs, is_pie o = true /\ legal_failure o it rs /\ interpret o (Decoded [it]) = RaiseOther.
-Proof. exact ClientProofs.failure_carries_refuted. Qed.
-Print Assumptions failure_carries_refuted.
-
-Theorem failure_carries_statement_refuted : ~ failure_carries_statement.
-Proof.
-  intros H. destruct ClientProofs.failure_carries_refuted as (o & it & rs & P & L & E).
-  rewrite (H o it rs P L) in E. discriminate.
-Qed.
-Print Assumptions failure_carries_statement_refuted.
-
-Theorem missing_message_always_crashes :
-  forall o it rs, is_pie o = true -> legal_failure o it rs -> message_read_unguarded o = true -> ri_msg it = None ->
-    interpret o (Decoded [it]) = RaiseOther.
-Proof. exact ClientProofs.missing_message_always_crashes. Qed.
-Print Assumptions missing_message_always_crashes.
-
-Example missing_message_always_crashes_inhabited :
-  legal_failure OGetAttributes {| ri_op := None; ri_status := 1; ri_reason := Some 4; ri_msg := None; ri_payload := None |} 4 /\
-  message_read_unguarded OGetAttributes = true.
-Proof. split; [|reflexivity]. repeat split; auto. discriminate. Qed.
-
-Theorem check_failure_refuted :
-  forall it rs, legal_failure OCheck it rs -> interpret OCheck (Decoded [it]) = RaiseOther.
-Proof. exact ClientProofs.check_failure_refuted. Qed.
-Print Assumptions check_failure_refuted.
-
-Example check_failure_refuted_inhabited :
-  legal_failure OCheck {| ri_op := Some 9; ri_status := 1; ri_reason := Some 5; ri_msg := Some [110; 111]; ri_payload := None |} 5.
+Example failure_carries_inhabited :
+  legal_failure ODestroy {| ri_op := Some 20; ri_status := 1; ri_reason := Some 1; ri_msg := None; ri_payload := None |} 1.
 Proof. repeat split; auto. discriminate. Qed.
 
 (* ---- KMIPProxy: result objects / dictionaries carry exactly status, reason and message *)
@@ -117,29 +82,14 @@ Theorem proxy_copies_exactly : forall o it rest, copies it (proxy_call o (Decode
 Proof. exact ClientProofs.proxy_copies_exactly. Qed.
 Print Assumptions proxy_copies_exactly.
 
-Theorem proxy_failure_reported_partial :
-  forall o it rs, legal_failure o it rs -> o <> OCheck ->
-    (o = ODiscoverVersions -> ri_op it = None) ->
-    (style_of o = SPayload -> ri_msg it <> None) ->
-    proxy_call o (Decoded [it]) <> PExc.
+Theorem proxy_failure_reported :
+  forall o it rs, legal_failure o it rs -> proxy_call o (Decoded [it]) <> PExc.
 Proof. exact ClientProofs.proxy_failure_reported. Qed.
-Print Assumptions proxy_failure_reported_partial.
+Print Assumptions proxy_failure_reported.
 
-Example proxy_failure_reported_partial_inhabited :
-  legal_failure OQuery {| ri_op := Some 24; ri_status := 1; ri_reason := Some 5; ri_msg := None; ri_payload := None |} 5 /\
-  OQuery <> OCheck /\ style_of OQuery <> SPayload.
-Proof. split; [|split; discriminate]. repeat split; auto. discriminate. Qed.
-
-Theorem proxy_discover_failure_refuted :
-  legal_failure ODiscoverVersions discover_failure 5 /\
-  proxy_call ODiscoverVersions (Decoded [discover_failure]) = PExc.
-Proof. exact ClientProofs.proxy_discover_failure_refuted. Qed.
-Print Assumptions proxy_discover_failure_refuted.
-
-Theorem proxy_check_failure_refuted :
-  forall it rs, legal_failure OCheck it rs -> proxy_call OCheck (Decoded [it]) = PExc.
-Proof. exact ClientProofs.proxy_check_failure_refuted. Qed.
-Print Assumptions proxy_check_failure_refuted.
+Example proxy_failure_reported_inhabited :
+  legal_failure ODiscoverVersions {| ri_op := Some 30; ri_status := 1; ri_reason := Some 5; ri_msg := None; ri_payload := None |} 5.
+Proof. repeat split; auto. discriminate. Qed.
 
 (* ---- framing: chunk independence, intact delivery, early end of stream *)
 Theorem read_is_a_function_of_the_stream :
